@@ -199,7 +199,7 @@ def run_check(pid, mod, args, scratch, t0):
             if f["id"] == fid:
                 known_lines[fid] = f
 
-    outdir = os.path.join(ROOT, "out", pid)
+    outdir = os.path.join(os.environ.get("VERIF_OUT_DIR") or os.path.join(ROOT, "out"), pid)
     os.makedirs(outdir, exist_ok=True)
     viol_paths = []
     for i, (k, v) in enumerate(sorted(new.items())):
@@ -238,8 +238,11 @@ def run_check(pid, mod, args, scratch, t0):
         evidence["coverage"].setdefault(k, v)
     if harness_errors:
         evidence["coverage"]["harness_errors"] = [h[:500] for h in harness_errors]
-    os.makedirs(os.path.join(ROOT, "evidence"), exist_ok=True)
-    with open(os.path.join(ROOT, "evidence", pid + ".json"), "w") as fh:
+    # VERIF_EVIDENCE_DIR: sensitivity runs against seeded changes write elsewhere, so that the committed
+    # evidence always describes a run against /repo itself
+    evdir = os.environ.get("VERIF_EVIDENCE_DIR") or os.path.join(ROOT, "evidence")
+    os.makedirs(evdir, exist_ok=True)
+    with open(os.path.join(evdir, pid + ".json"), "w") as fh:
         json.dump(evidence, fh, indent=1, default=str)
 
     print("%s %s seed=%d: %d cases, %d distinct non-trivial, %.1fs%s" % (
